@@ -286,7 +286,15 @@ func runForeignCase(c *foreignCase) (res foreignResult) {
 	}
 	res.Outcome = "ok"
 	// C14: re-writing what was read changes nothing
-	if c.Mod == "none" && w.Digest() != before.Digest() {
+	// (the cylinder/head/sector fields of the protective MBR entry are not part of what a GPT table object carries; tools
+	// encode them differently - 0x000200/0xFFFFFF per the UEFI text, zeroes elsewhere - so they are left out of the comparison)
+	maskCHS := func(x *memdev.Dev) [32]byte {
+		y := x.Clone()
+		y.Poke(make([]byte, 3), 447)
+		y.Poke(make([]byte, 3), 451)
+		return y.Digest()
+	}
+	if c.Mod == "none" && maskCHS(w) != maskCHS(before) {
 		res.C14Sig = "c14|table|gpt-foreign|rewrite-changes-bytes"
 		res.C14Msg = fmt.Sprintf("a %d-slot GPT read from disk and written back unchanged altered the disk", c.Count)
 	}
